@@ -362,6 +362,10 @@ func (s *Seq) opCollect(op *Op) {
 	ctx := fmt.Sprintf("collect of search %q evaluated at step %d (matches then: %v)", h.q.String(), h.step, setList(h.expect))
 	var objs []sod.Object
 	var err error
+	if op.Mode == "delete" {
+		s.heldDelete(h, ctx)
+		return
+	}
 	switch op.Mode {
 	case "assign":
 		var out []*shapes.Rec
@@ -607,3 +611,62 @@ func scribbleAny(x interface{}) {
 
 var _ = json.Marshal
 var _ = math.NaN
+
+// heldDelete deletes through a search that was evaluated earlier: only objects
+// that matched at evaluation time may disappear; those that matched and were
+// never deleted since must all be gone when no error is reported.
+func (s *Seq) heldDelete(h *heldSearch, ctx string) {
+	err := h.s.Delete()
+	s.stat("held-deleted")
+	objs, aerr := s.db.All(rec0())
+	if aerr != nil {
+		s.fail("snapshot", "all-failed-after-held-delete", "%s: All fails after deleting through the held search: %v", ctx, aerr)
+	}
+	actual := map[int]bool{}
+	for _, o := range objs {
+		r, ok := o.(*shapes.Rec)
+		if !ok {
+			s.fail("snapshot", "foreign-object", "%s: All returned %T", ctx, o)
+		}
+		actual[r.Lid] = true
+	}
+	gone := 0
+	for _, l := range setList(h.expect) {
+		if _, live := s.M.Objs[l]; !live || h.deleted[l] {
+			gone++
+		}
+	}
+	for _, l := range s.M.Lids() {
+		if actual[l] {
+			continue
+		}
+		// l disappeared
+		if !h.expect[l] {
+			s.fail("snapshot", "delete-outside-snapshot", "%s: deleting through the held search removed lid=%d, which did not match when the search was evaluated", ctx, l)
+		}
+	}
+	for l := range actual {
+		if _, live := s.M.Objs[l]; !live {
+			s.fail("snapshot", "ghost-object", "%s: lid=%d exists after the held delete but is not stored", ctx, l)
+		}
+	}
+	if err != nil {
+		if gone == 0 {
+			s.fail("snapshot", "held-delete-error-without-delete", "%s: Delete through the held search failed (%v) although no matched object was deleted meanwhile", ctx, err)
+		}
+	} else {
+		for _, l := range setList(h.expect) {
+			if _, live := s.M.Objs[l]; live && !h.deleted[l] && actual[l] {
+				s.fail("snapshot", "held-delete-missed-object", "%s: lid=%d matched, still exists, and survived the delete through the held search", ctx, l)
+			}
+		}
+	}
+	for _, l := range s.M.Lids() {
+		if !actual[l] {
+			s.modelDelete(l)
+		}
+	}
+	s.rejected = false
+	s.syncCommitted()
+	s.lightReads("after-held-delete")
+}
